@@ -418,3 +418,152 @@ def c09_tables(tier, rng):
                                     "required": "matrix == linear, groups partition the ungrouped table, TPM is a rescaling",
                                     "replay_call": "contracts.c_counters:replay_counters"}]}
     return {"cases": n, "bound": "%d runs" % n, "violations": [], "samples": [{"seed": base}]}
+
+
+# ---- model-level counting (transcript_model_counts): the per-read number of models a read is listed under -------------------------------------
+G = "src/graph_based_model_construction.py:"
+record("AssignedReadM", {"read_id": "str", "read_group": "str"})
+record("GraphBasedModelConstructor", {"transcript_read_ids": "dict[str,list[rec:AssignedReadM]]", "read_assignment_counts": "defaultdict[str,int,0]",
+                                      "internal_counter": "defaultdict[str,int,0]"})
+CLASS_HOME["GraphBasedModelConstructor"] = "src/graph_based_model_construction.py"
+
+
+@spec("list[rec:AssignedReadM], int, str -> int")
+def nocc(L, n, r):
+    # how many of the first n listed assignments belong to read r
+    return 0 if n <= 0 else nocc(L, n - 1, r) + (1 if L[n - 1].read_id == r else 0)
+
+
+def _gen_delete(rng, n):
+    import types
+    from collections import defaultdict
+    gm = native.repo_import("src/graph_based_model_construction.py")
+    for _ in range(n):
+        c = gm.GraphBasedModelConstructor.__new__(gm.GraphBasedModelConstructor)
+        c.transcript_read_ids = defaultdict(list)
+        c.read_assignment_counts = defaultdict(int)
+        c.internal_counter = defaultdict(int)
+        models = ["m%d" % i for i in range(rng.randint(1, 3))]
+        for i in range(rng.randint(1, 5)):
+            r = types.SimpleNamespace(read_id="r%d" % i, read_group="NA")
+            for m in rng.sample(models, rng.randint(1, len(models))):
+                c.save_assigned_read(r, m)
+        live = [m for m in models if m in c.transcript_read_ids]
+        if live:
+            yield {"self": c, "transcript_id": rng.choice(live)}
+
+
+contract(G + "GraphBasedModelConstructor.delete_from_storage", {"self": "rec:GraphBasedModelConstructor", "transcript_id": "str"}, returns="none",
+         props=["C02"], modifies=["self.read_assignment_counts", "self.transcript_read_ids", "self.internal_counter"], gen=_gen_delete,
+         requires=["transcript_id in self.transcript_read_ids", "transcript_id in self.internal_counter",
+                   "all(a.read_id in self.read_assignment_counts for a in self.transcript_read_ids[transcript_id])"],
+         # forward_counts decides "unique to one model" by read_assignment_counts[r] == 1: the counter must keep meaning "number of models r is
+         # still listed under", so deleting a model takes away exactly the read's listings under that model - no more, no less
+         ensures=["all(self.read_assignment_counts[r] == old(self.read_assignment_counts)[r] - "
+                  "nocc(old(self.transcript_read_ids)[transcript_id], len(old(self.transcript_read_ids)[transcript_id]), r) "
+                  "for r in old(self.read_assignment_counts))",
+                  "transcript_id not in self.transcript_read_ids",
+                  "all(t in self.transcript_read_ids and self.transcript_read_ids[t] == old(self.transcript_read_ids)[t] "
+                  "for t in old(self.transcript_read_ids) if t != transcript_id)"],
+         loops={0: {"inv": ["all(r in self.read_assignment_counts and self.read_assignment_counts[r] == old(self.read_assignment_counts)[r] - "
+                            "nocc(self.transcript_read_ids[transcript_id], _k0, r) for r in old(self.read_assignment_counts))",
+                            "self.transcript_read_ids == old(self.transcript_read_ids)", "self.internal_counter == old(self.internal_counter)"]}},
+         canary="len(self.transcript_read_ids) == len(old(self.transcript_read_ids))")
+
+contract(G + "GraphBasedModelConstructor.save_assigned_read",
+         {"self": "rec:GraphBasedModelConstructor", "read_assignment": "rec:AssignedReadM", "transcript_id": "str"}, returns="none",
+         props=["C02"], modifies=["self.read_assignment_counts", "self.transcript_read_ids", "self.internal_counter"], native=False,
+         requires=["transcript_id in self.transcript_read_ids"],
+         ensures=["self.read_assignment_counts[read_assignment.read_id] == "
+                  "(old(self.read_assignment_counts)[read_assignment.read_id] if read_assignment.read_id in old(self.read_assignment_counts) else 0) + 1",
+                  "all(self.read_assignment_counts[r] == old(self.read_assignment_counts)[r] for r in old(self.read_assignment_counts) if r != read_assignment.read_id)",
+                  "len(self.transcript_read_ids[transcript_id]) == len(old(self.transcript_read_ids)[transcript_id]) + 1",
+                  "self.transcript_read_ids[transcript_id][len(self.transcript_read_ids[transcript_id]) - 1] == read_assignment"])
+
+
+def _model_count_case(seed):
+    """random histories of the real constructor's bookkeeping (save / delete / the second assignment pass's rule), then the real
+    forward_counts into a real transcript counter; compared with the documented weights computed from the final read lists"""
+    import os, random, shutil, tempfile, types
+    from collections import defaultdict
+    gm = native.repo_import("src/graph_based_model_construction.py")
+    lrc = native.repo_import("src/long_read_counter.py")
+    rng = random.Random(seed)
+    base = os.path.join(os.path.dirname(os.path.dirname(os.path.abspath(__file__))), ".run")
+    os.makedirs(base, exist_ok=True)
+    d = tempfile.mkdtemp(prefix="mcnt", dir=base)
+    problems = []
+    try:
+        strategy = rng.choice(lrc.COUNTING_STRATEGIES)
+        c = gm.GraphBasedModelConstructor.__new__(gm.GraphBasedModelConstructor)
+        c.transcript_read_ids = defaultdict(list)
+        c.read_assignment_counts = defaultdict(int)
+        c.internal_counter = defaultdict(int)
+        c.transcript_model_storage = []
+        c.transcript_counter = lrc.create_transcript_counter(os.path.join(d, "m"), strategy, [], None, True)
+        models = ["m%d" % i for i in range(rng.randint(2, 4))]
+        reads = [types.SimpleNamespace(read_id="r%d" % i, read_group="NA") for i in range(rng.randint(2, 7))]
+        for r in reads:
+            for m in rng.sample(models, rng.randint(0, min(3, len(models)))):
+                c.save_assigned_read(r, m)
+        for m in rng.sample(models, rng.randint(0, len(models) - 1)):
+            if m in c.transcript_read_ids:
+                c.delete_from_storage(m)
+                models.remove(m)
+        # the second pass (assign_reads_to_models) gives a read without any listing a fresh chance
+        for r in reads:
+            if c.read_assignment_counts[r.read_id] == 0 and models and rng.random() < .7:
+                for m in rng.sample(models, rng.randint(1, min(2, len(models)))):
+                    c.read_assignment_counts[r.read_id] += 1
+                    c.transcript_read_ids[m].append(r)
+        listed = defaultdict(list)
+        for m, L in c.transcript_read_ids.items():
+            for a in L:
+                listed[a.read_id].append(m)
+        for r in reads:
+            if c.read_assignment_counts[r.read_id] != len(listed[r.read_id]):
+                problems.append("read %s is listed under %s but read_assignment_counts says %d" % (r.read_id, listed[r.read_id], c.read_assignment_counts[r.read_id]))
+        c.forward_counts()
+        tc = c.transcript_counter
+        flags = lrc.ReadWeightCounter(strategy).strategy_flags
+        want = defaultdict(float)
+        for r, ms in listed.items():
+            k = len(set(ms))
+            if k == 0:
+                continue
+            if len(ms) != k:
+                problems.append("read %s is listed twice under one model: %s" % (r, ms))
+            w = 1.0 if k == 1 else (1.0 / k if flags.use_ambiguous else 0.0)
+            for m in set(ms):
+                want[m] += w
+        for m in set(list(want) + list(tc.feature_counter.keys())):
+            got = tc.feature_counter[m].get(0) if m in tc.feature_counter else 0.0
+            if abs(got - want[m]) > 1e-9:
+                problems.append("model %s counts %r, the documented weights of its listed reads sum to %r (%s)" % (m, got, want[m], strategy))
+    finally:
+        shutil.rmtree(d, ignore_errors=True)
+    return problems
+
+
+def replay_model_counts(d):
+    p = _model_count_case(d["inputs"]["seed"])
+    return (not p), "seed %s: %s" % (d["inputs"]["seed"], p or "model counts follow the documented weights")
+
+
+@bounded("C02.model_counts", ["C02"], shards=8, note="real GraphBasedModelConstructor bookkeeping (save_assigned_read, delete_from_storage, the second "
+         "assignment pass) on random histories of <= 7 reads x <= 4 models, then the real forward_counts into a real transcript counter: "
+         "read_assignment_counts equals the number of listings, no read is listed twice under a model, every model's count is the "
+         "documented sum of 1 or 1/k over the reads listed for it")
+def c02_model_counts(tier, rng):
+    n = 150 if tier == "quick" else 5000
+    base = rng.randrange(10 ** 9)
+    for k in range(n):
+        try:
+            p = _model_count_case(base + k)
+        except Exception as e:
+            p = ["exception %s: %s" % (type(e).__name__, e)]
+        if p:
+            return {"cases": k + 1, "bound": "%d histories" % n, "violations": [{
+                "obligation": "C02.model_counts", "inputs": {"seed": base + k}, "observed": p[:3],
+                "required": "model counts = documented weights over the listed reads", "replay_call": "contracts.c_counters:replay_model_counts"}]}
+    return {"cases": n, "bound": "%d random histories" % n, "violations": [], "samples": [{"seed": base}]}
